@@ -128,6 +128,7 @@ public:
 
         if (p) {
             spin_mutex::scoped_lock lock( page_mutex );
+            __TBB_VERIF_POINT(vp_cq_page_switch, this, 0);
             padded_page* q = tail_page.load(std::memory_order_relaxed);
             if (is_valid_page(q)) {
                 q->next = p;
@@ -177,6 +178,7 @@ public:
         k &= -queue_rep_type::n_queue;
         spin_wait_until_eq(head_counter, k);
         d1::call_itt_notify(d1::acquired, &head_counter);
+        __TBB_VERIF_POINT(vp_cq_pop_wait_item, this, tail_counter.load(std::memory_order_relaxed) == k);
         spin_wait_while_eq(tail_counter, k);
         d1::call_itt_notify(d1::acquired, &tail_counter);
         padded_page *p = head_page.load(std::memory_order_relaxed);
@@ -385,6 +387,7 @@ public:
         padded_page* p = my_page;
         if( is_valid_page(p) ) {
             spin_mutex::scoped_lock lock( my_queue.page_mutex );
+            __TBB_VERIF_POINT(vp_cq_page_switch, &my_queue, 1);
             padded_page* q = p->next;
             my_queue.head_page.store(q, std::memory_order_relaxed);
             if( !is_valid_page(q) ) {
